@@ -5,6 +5,7 @@ import DimodProofs.BKLabels
 import DimodProofs.BKQue
 import DimodProofs.ReduceGiven
 import DimodProofs.HocOptions
+import DimodProofs.HocRecord
 
 /-! # C15 — higher-order reduction is exact on consistent assignments; the penalty is never negative
 
@@ -803,5 +804,549 @@ example : (makeQuadraticOnto (some { vt := .binary, lin := [(.str "0*1", 1)], qu
   decide +kernel
 
 example : newProduct [.str "0*1", .int 0, .int 1] (.int 0) (.int 1) = .str "_0*1" := by decide +kernel
+
+/-! ## round 7: `polymorph_response` — the whole returned sample set as coded (`Red.polymorphRecord`)
+
+The record array of the child (`sample` rows aligned with `variables`, `energy`, the other fields), the
+`penalty_satisfaction` column, `discard_unsatisfied`, `keep_penalty_variables`, the recomputed energies, the vectors
+carried over, field layout, `info`, vartype and the exceptions. -/
+
+/-- **`penalty_satisfaction(response, bqm)`**: the entry of a record is `1` iff EVERY product variable of
+    `bqm.info['reduction']` equals the product of its two factors in that record's row, and `0` otherwise; one entry per
+    record, in record order -/
+theorem penalty_satisfaction_vector (reduction : List (Pair × Label)) (resp : SampleSetM) (pv : List Nat)
+    (h : penaltyVector reduction resp = .ok pv) :
+    pv = resp.rows.map (fun r => if penaltySatisfied reduction (rowFn resp.vars r.sample) then 1 else 0)
+    ∧ ∀ r ∈ resp.rows, (penaltySatisfied reduction (rowFn resp.vars r.sample) = true
+          ↔ ∀ c ∈ reduction, rowFn resp.vars r.sample c.1.1 * rowFn resp.vars r.sample c.1.2 = rowFn resp.vars r.sample c.2) :=
+  ⟨penaltyVector_ok reduction resp pv h, fun r _ => penaltySatisfied_iff reduction _⟩
+
+/-- **the returned sample set, for every option** (`order` = the iteration order of the set `poly.variables`).  Whenever
+    `polymorph_response` returns:
+    * its records are, **in the child's order**, exactly the child's records (all of them; with `discard_unsatisfied`
+      exactly those in which every product constraint holds), each rebuilt as `Red.outRowOf`: the sample row itself
+      (`keep_penalty_variables`) or its columns for `order`, the polynomial's energy of the row, the
+      `penalty_satisfaction` flag, and the child's other fields (`num_occurrences`, …) unchanged;
+    * its variables are the child's (`keep_penalty_variables`) or `order`;
+    * its fields are `Generated.HocLayout.headFields` (`sample, energy, penalty_satisfaction`, regenerated from the source on
+      every run) followed by the child's other fields; the vartype is the child's; `info` is the child's with the keys
+      `Generated.HocLayout.reductionKey` and `…strengthKey` set;
+    * the dtype of `penalty_satisfaction` is `bool` with `discard_unsatisfied`, `int64` without — and `float64` in the
+      two corner cases in which the code builds the column from an empty Python list. -/
+theorem polymorph_response_record (poly : List (LTerm × Rat)) (order : List Label) (reduction : List (Pair × Label))
+    (strength : Option Rat) (keep discard : Bool) (resp : SampleSetM) (out : OutSet)
+    (h : polymorphRecord poly order reduction strength keep discard resp = .ok out) :
+    out.rows = (resp.rows.filter (fun r => !discard || penaltySatisfied reduction (rowFn resp.vars r.sample))).map
+                 (outRowOf poly order reduction keep discard resp.vars)
+    ∧ out.vars = (if keep then resp.vars else order)
+    ∧ out.fields = Generated.HocLayout.headFields ++ resp.names
+    ∧ out.vt = resp.vt
+    ∧ out.info = outInfo reduction strength resp.info
+    ∧ out.satDtype = (if discard then
+          (if (resp.rows.filter (fun r => !discard || penaltySatisfied reduction (rowFn resp.vars r.sample))).isEmpty then .float64 else .bool)
+        else if reduction.isEmpty then (if resp.rows.isEmpty then .float64 else .int64) else .int64) :=
+  polymorphRecord_ok poly order reduction strength keep discard resp out h
+
+/-- **row by row**: every returned record stems from a record `r` of the child, keeps its vectors, reports the
+    polynomial's energy at the row restricted to the polynomial's variables (any assignment agreeing with the row on
+    them has that energy), has `penalty_satisfaction ∈ {0, 1}` with `1` iff (`discard_unsatisfied` or) every product
+    variable equals the product of its two factors in the row; with `discard_unsatisfied` every product constraint
+    holds in it; and conversely every record of the child that has to be kept is returned -/
+theorem polymorph_response_rows (poly : List (LTerm × Rat)) (order : List Label) (reduction : List (Pair × Label))
+    (strength : Option Rat) (keep discard : Bool) (resp : SampleSetM) (out : OutSet)
+    (h : polymorphRecord poly order reduction strength keep discard resp = .ok out) :
+    (∀ ro ∈ out.rows, ∃ r ∈ resp.rows,
+        ro.vectors = r.vectors
+        ∧ ro.sample = (if keep then r.sample else order.map (rowFn resp.vars r.sample))
+        ∧ (∀ y : Label → Rat, (∀ v ∈ polyVars poly, y v = rowFn resp.vars r.sample v) → ro.energy = polyEnergy y poly)
+        ∧ (ro.sat = 0 ∨ ro.sat = 1)
+        ∧ (ro.sat = 1 ↔ (discard = true ∨ ∀ c ∈ reduction,
+              rowFn resp.vars r.sample c.1.1 * rowFn resp.vars r.sample c.1.2 = rowFn resp.vars r.sample c.2))
+        ∧ (discard = true → ∀ c ∈ reduction,
+              rowFn resp.vars r.sample c.1.1 * rowFn resp.vars r.sample c.1.2 = rowFn resp.vars r.sample c.2))
+    ∧ (∀ r ∈ resp.rows, (discard = false ∨ ∀ c ∈ reduction,
+              rowFn resp.vars r.sample c.1.1 * rowFn resp.vars r.sample c.1.2 = rowFn resp.vars r.sample c.2) →
+          outRowOf poly order reduction keep discard resp.vars r ∈ out.rows)
+    ∧ out.rows.length ≤ resp.rows.length
+    ∧ (discard = false → out.rows.length = resp.rows.length) := by
+  obtain ⟨hrows, -⟩ := polymorphRecord_ok poly order reduction strength keep discard resp out h
+  rw [hrows]
+  refine ⟨?_, ?_, ?_, ?_⟩
+  · intro ro hro
+    obtain ⟨r, hr, rfl⟩ := List.mem_map.1 hro
+    obtain ⟨hrm, hkeep⟩ := List.mem_filter.1 hr
+    refine ⟨r, hrm, rfl, rfl, ?_, ?_, ?_, ?_⟩
+    · intro y hy
+      exact Red.polyEnergy_congr _ _ poly (fun v hv => (hy v hv).symm)
+    · unfold outRowOf; simp only; split <;> simp
+    · unfold outRowOf
+      simp only [← penaltySatisfied_iff]
+      cases discard <;> cases penaltySatisfied reduction (rowFn resp.vars r.sample) <;> simp
+    · intro hd
+      rw [hd] at hkeep
+      simp only [Bool.not_true, Bool.false_or] at hkeep
+      exact (penaltySatisfied_iff reduction _).1 hkeep
+  · intro r hr hc
+    refine List.mem_map.2 ⟨r, List.mem_filter.2 ⟨hr, ?_⟩, rfl⟩
+    rcases hc with hd | hc
+    · simp [hd]
+    · simp [(penaltySatisfied_iff reduction _).2 hc]
+  · rw [List.length_map]; exact List.length_filter_le _ _
+  · intro hd
+    rw [List.length_map, hd]
+    simp
+
+/-- **without `keep_penalty_variables` exactly the polynomial's variables remain** (the set `poly.variables` iterates
+    over each variable of the polynomial once), with them all columns of the child; and for a well-formed response (as
+    many values per row as variables, labels pairwise different) every returned sample row is, column by column, the
+    child's value of the returned variable — whatever the option -/
+theorem polymorph_response_columns (poly : List (LTerm × Rat)) (order : List Label) (horder : order.Perm (polyVars poly))
+    (reduction : List (Pair × Label)) (strength : Option Rat) (keep discard : Bool) (resp : SampleSetM) (out : OutSet)
+    (h : polymorphRecord poly order reduction strength keep discard resp = .ok out)
+    (hnd : resp.vars.Nodup) (hlen : ∀ r ∈ resp.rows, r.sample.length = resp.vars.length) :
+    (keep = false → out.vars.Perm (polyVars poly))
+    ∧ (keep = true → out.vars = resp.vars)
+    ∧ (∀ ro ∈ out.rows, ∃ r ∈ resp.rows, ro.sample = out.vars.map (rowFn resp.vars r.sample)) := by
+  obtain ⟨hrows, hvars, -⟩ := polymorphRecord_ok poly order reduction strength keep discard resp out h
+  refine ⟨?_, ?_, ?_⟩
+  · intro hk; rw [hvars, hk]; exact horder
+  · intro hk; rw [hvars, hk]; rfl
+  · intro ro hro
+    rw [hrows] at hro
+    obtain ⟨r, hr, rfl⟩ := List.mem_map.1 hro
+    have hrm := (List.mem_filter.1 hr).1
+    refine ⟨r, hrm, ?_⟩
+    rw [hvars]
+    unfold outRowOf
+    cases keep with
+    | true => exact row_eq_map_rowFn resp.vars hnd r.sample (hlen r hrm)
+    | false => rfl
+
+/-- **when `polymorph_response` raises** (`ValueError` of `variables.index`, `KeyError` inside `poly.energies`,
+    `ValueError` of the record dtype): iff a label of the reduction or a variable of the polynomial is not a variable of
+    the child's response, or the child's record already has a field named like one of the leading fields (`penalty_satisfaction`) -/
+theorem polymorph_response_raises_iff (poly : List (LTerm × Rat)) (order : List Label) (horder : ∀ v ∈ order, v ∈ polyVars poly)
+    (reduction : List (Pair × Label)) (strength : Option Rat) (keep discard : Bool) (resp : SampleSetM) :
+    (∃ e, polymorphRecord poly order reduction strength keep discard resp = .error e)
+      ↔ ((∃ c ∈ reduction, c.1.1 ∉ resp.vars ∨ c.1.2 ∉ resp.vars ∨ c.2 ∉ resp.vars)
+          ∨ (∃ v ∈ polyVars poly, v ∉ resp.vars)
+          ∨ (∃ n ∈ resp.names, n ∈ Generated.HocLayout.headFields)) :=
+  polymorphRecord_error_iff poly order horder reduction strength keep discard resp
+
+/-- **`HigherOrderComposite.sample_poly` returning the whole sample set** (`Red.samplePolyRecord`, any child): the child
+    is called on `make_quadratic(poly, penalty_strength, poly.vartype)` on a fresh model, and the result is
+    `polymorph_response` of the child's sample set with the reduction `make_quadratic` recorded and
+    `penalty_strength` — so the four theorems above apply to it with `reduction = st.constraints` -/
+theorem sample_poly_record_spec (child : Bq Label → Option (List (Label × Rat)) → SampleSetM)
+    (vt : VT) (raw : List (List Label × Rat)) (choices : List Pair) (order : List Label)
+    (strength : Rat) (keep discard : Bool) (init : Option (List (Label × Rat))) (res : Except HocErr OutSet)
+    (h : samplePolyRecord child vt raw choices order strength keep discard init = some res) :
+    ∃ bag st auxs init', makeQuadratic [] vt strength raw choices = some (bag, st, auxs)
+      ∧ (init = none → init' = none)
+      ∧ res = polymorphRecord (normPoly vt raw) order st.constraints (some strength) keep discard
+                (child ((Bq.empty vt : Bq Label).apply bag) init') := by
+  unfold samplePolyRecord at h
+  split at h
+  · simp at h
+  · rename_i bag st auxs hmq
+    simp only at h
+    split at h
+    · simp at h
+    · rename_i i' hi
+      simp only [Option.some.injEq] at h
+      refine ⟨bag, st, auxs, i', hmq, ?_, h.symm⟩
+      intro hnone
+      subst hnone
+      simp only [Option.some.injEq] at hi
+      exact hi.symm
+
+/-! ## round 7: the penalty for every `strength` — positive (never negative), zero, negative -/
+
+/-- **the penalty is never negative, BINARY, every `strength ≥ 0`** (in particular every `strength > 0`): whenever
+    `make_quadratic` succeeds, at every 0/1 assignment the penalty part `E_bqm − E_reduced` is `≥ 0`, it is `0` where
+    every product variable equals its product, and `≥ strength` where some product variable does not -/
+theorem make_quadratic_penalty_scaled (reserved : List Label) (strength : Rat) (hs : 0 ≤ strength)
+    (raw : List (List Label × Rat)) (choices : List Pair) (bag : List (PTerm Label)) (st : BK) (auxs : List Label)
+    (h : makeQuadratic reserved .binary strength raw choices = some (bag, st, auxs))
+    (x : Label → Rat) (hx : ∀ l, x l ∈ [(0 : Rat), 1]) :
+    0 ≤ evalBag x bag - polyEnergy x st.reduced
+    ∧ ((∀ c ∈ st.constraints, x c.2 = x c.1.1 * x c.1.2) → evalBag x bag - polyEnergy x st.reduced = 0)
+    ∧ ((∃ c ∈ st.constraints, x c.2 ≠ x c.1.1 * x c.1.2) → strength ≤ evalBag x bag - polyEnergy x st.reduced) := by
+  have he := make_quadratic_energy reserved strength raw choices bag st auxs h x
+  have hpen := make_quadratic_penalty_nonneg x hx st.constraints
+  refine ⟨?_, ?_, ?_⟩
+  · have := Rat.mul_nonneg hs hpen.1; grind
+  · intro hc; rw [he, hpen.2.1 hc]; grind
+  · intro hex
+    have : strength * 1 ≤ strength * penSumB x st.constraints := Rat.mul_le_mul_of_nonneg_left (hpen.2.2 hex) hs
+    grind
+
+/-- **the penalty is never negative, SPIN-valued polynomials, every `strength ≥ 0`** (the `_spin_product` gadget with
+    its auxiliary): whenever `make_quadratic` succeeds, at every ±1 assignment — **whatever the values of the spin
+    auxiliaries** — the penalty part `E_bqm − E_reduced` is `≥ 0` and `≥ strength` where some product variable differs
+    from its product; where all products are consistent the auxiliaries (and only they) can be re-set so that the
+    penalty vanishes -/
+theorem make_quadratic_penalty_scaled_spin (reserved : List Label) (strength : Rat) (hs : 0 ≤ strength)
+    (raw : List (List Label × Rat)) (choices : List Pair) (hch : ∀ c ∈ choices, c.1 ≠ c.2)
+    (bag : List (PTerm Label)) (st : BK) (auxs : List Label)
+    (h : makeQuadratic reserved .spin strength raw choices = some (bag, st, auxs))
+    (x : Label → Rat) (hx : Spin01 x) :
+    0 ≤ evalBag x bag - polyEnergy x st.reduced
+    ∧ ((∃ c ∈ st.constraints, x c.2 ≠ x c.1.1 * x c.1.2) → strength ≤ evalBag x bag - polyEnergy x st.reduced)
+    ∧ ((∀ c ∈ st.constraints, x c.2 = x c.1.1 * x c.1.2) →
+        ∃ x', Spin01 x' ∧ (∀ l, l ∉ auxs → x' l = x l) ∧ evalBag x' bag - polyEnergy x st.reduced = 0) := by
+  obtain ⟨he, hlen⟩ := make_quadratic_energy_spin reserved strength raw choices bag st auxs h x
+  have hpen := make_quadratic_penalty_nonneg_spin x hx st.constraints auxs hlen
+  refine ⟨?_, ?_, ?_⟩
+  · have := Rat.mul_nonneg hs hpen.1; grind
+  · intro hex
+    have : strength * 1 ≤ strength * penSumS x st.constraints auxs := Rat.mul_le_mul_of_nonneg_left (hpen.2 hex) hs
+    grind
+  · intro hc
+    obtain ⟨x', hx', hoff, hE, _⟩ := make_quadratic_exact_spin reserved strength raw choices bag st auxs h hch x hx hc
+    refine ⟨x', hx', hoff, ?_⟩
+    rw [hE, make_quadratic_reduced_consistent reserved .spin strength raw choices bag st auxs h hch x hc]
+    grind
+
+/-- **`strength = 0`** (accepted by the code: there is no validation): the penalty vanishes identically, the quadratic
+    model IS the reduced polynomial at every assignment, consistent or not, for both vartypes -/
+theorem make_quadratic_strength_zero (reserved : List Label) (vt : VT) (raw : List (List Label × Rat)) (choices : List Pair)
+    (bag : List (PTerm Label)) (st : BK) (auxs : List Label)
+    (h : makeQuadratic reserved vt 0 raw choices = some (bag, st, auxs)) (x : Label → Rat) :
+    evalBag x bag = polyEnergy x st.reduced := by
+  cases vt with
+  | binary => rw [make_quadratic_energy reserved 0 raw choices bag st auxs h x]; grind
+  | spin => rw [(make_quadratic_energy_spin reserved 0 raw choices bag st auxs h x).1]; grind
+
+/-- **`strength < 0`** (also accepted): the "penalty" is `≤ 0` at every assignment of the vartype's domain and
+    `≤ strength < 0` wherever some product variable differs from its product — inconsistent assignments are rewarded -/
+theorem make_quadratic_strength_negative (reserved : List Label) (strength : Rat) (hs : strength < 0)
+    (raw : List (List Label × Rat)) (choices : List Pair) (bag : List (PTerm Label)) (st : BK) (auxs : List Label) (x : Label → Rat) :
+    (makeQuadratic reserved .binary strength raw choices = some (bag, st, auxs) → (∀ l, x l ∈ [(0 : Rat), 1]) →
+        evalBag x bag - polyEnergy x st.reduced ≤ 0
+        ∧ ((∃ c ∈ st.constraints, x c.2 ≠ x c.1.1 * x c.1.2) → evalBag x bag - polyEnergy x st.reduced ≤ strength))
+    ∧ (makeQuadratic reserved .spin strength raw choices = some (bag, st, auxs) → Spin01 x →
+        evalBag x bag - polyEnergy x st.reduced ≤ 0
+        ∧ ((∃ c ∈ st.constraints, x c.2 ≠ x c.1.1 * x c.1.2) → evalBag x bag - polyEnergy x st.reduced ≤ strength)) := by
+  have hs' : (0 : Rat) ≤ -strength := by grind
+  constructor
+  · intro h hx
+    have he := make_quadratic_energy reserved strength raw choices bag st auxs h x
+    have hpen := make_quadratic_penalty_nonneg x hx st.constraints
+    refine ⟨?_, ?_⟩
+    · have := Rat.mul_nonneg hs' hpen.1; grind
+    · intro hex
+      have : -strength * 1 ≤ -strength * penSumB x st.constraints := Rat.mul_le_mul_of_nonneg_left (hpen.2.2 hex) hs'
+      grind
+  · intro h hx
+    obtain ⟨he, hlen⟩ := make_quadratic_energy_spin reserved strength raw choices bag st auxs h x
+    have hpen := make_quadratic_penalty_nonneg_spin x hx st.constraints auxs hlen
+    refine ⟨?_, ?_⟩
+    · have := Rat.mul_nonneg hs' hpen.1; grind
+    · intro hex
+      have : -strength * 1 ≤ -strength * penSumS x st.constraints auxs := Rat.mul_le_mul_of_nonneg_left (hpen.2 hex) hs'
+      grind
+
+/-- the polynomial `2·x0·x1·x2 − x0 − x1 − x2` (BINARY), reduced on the pair `(0, 1)` -/
+def witnessRaw : List (List Label × Rat) :=
+  [([.int 0, .int 1, .int 2], 2), ([.int 0], -1), ([.int 1], -1), ([.int 2], -1)]
+
+/-- `x0 = x1 = x2 = 1` with the product variable `'0*1'` set to `0`: an inconsistent assignment -/
+def witnessX : Label → Rat := fun l => if l = .str "0*1" then 0 else 1
+
+/-- **`strength = 0` is not exact with respect to the polynomial** (witness): `make_quadratic(2·x0x1x2 − x0 − x1 − x2, 0)`
+    has energy `−3` at the inconsistent assignment `x0 = x1 = x2 = 1, '0*1' = 0`, below every value (`≥ −2`) the
+    polynomial takes on 0/1 assignments; with `strength = −1` the same assignment even has energy `−4` -/
+theorem strength_nonpositive_not_exact :
+    (makeQuadratic [] .binary 0 witnessRaw [(.int 0, .int 1)]).map (fun r => evalBag witnessX r.1) = some (-3)
+    ∧ (makeQuadratic [] .binary (-1) witnessRaw [(.int 0, .int 1)]).map (fun r => evalBag witnessX r.1) = some (-4)
+    ∧ (∀ l, witnessX l ∈ [(0 : Rat), 1])
+    ∧ witnessX (.str "0*1") ≠ witnessX (.int 0) * witnessX (.int 1)
+    ∧ ∀ y : Label → Rat, (∀ l, y l ∈ [(0 : Rat), 1]) → -2 ≤ polyEnergy y (normPoly .binary witnessRaw) := by
+  refine ⟨by decide +kernel, by decide +kernel, ?_, by decide +kernel, ?_⟩
+  · intro l; unfold witnessX; split <;> simp
+  · intro y hy
+    have hn : normPoly .binary witnessRaw = [([.int 0, .int 1, .int 2], 2), ([.int 0], -1), ([.int 1], -1), ([.int 2], -1)] := by
+      decide +kernel
+    rw [hn]
+    simp only [polyEnergy, termVal]
+    have h0 := hy (.int 0); have h1 := hy (.int 1); have h2 := hy (.int 2)
+    simp only [List.mem_cons, List.not_mem_nil, or_false] at h0 h1 h2
+    rcases h0 with h0 | h0 <;> rcases h1 with h1 | h1 <;> rcases h2 with h2 | h2 <;> rw [h0, h1, h2] <;> decide +kernel
+
+/-! ## round 7: the whole returned sample set, end to end (BINARY) -/
+
+/-- the quadratic model `make_quadratic` builds on a fresh BINARY model, as an energy function: at every 0/1
+    assignment it is never below the reduced polynomial, equals the POLYNOMIAL where every product variable equals its
+    product, and lies `≥ strength` above the reduced polynomial elsewhere (`strength ≥ 0`) -/
+theorem make_quadratic_model_energy_binary (strength : Rat) (hs : 0 ≤ strength) (raw : List (List Label × Rat)) (choices : List Pair)
+    (hch : ∀ c ∈ choices, c.1 ≠ c.2) (bag : List (PTerm Label)) (st : BK) (auxs : List Label)
+    (h : makeQuadratic [] .binary strength raw choices = some (bag, st, auxs)) (x : Label → Rat) (hx : ∀ l, x l ∈ [(0 : Rat), 1]) :
+    polyEnergy x st.reduced ≤ ((Bq.empty .binary : Bq Label).apply bag).energy x
+    ∧ ((∀ c ∈ st.constraints, x c.2 = x c.1.1 * x c.1.2) →
+        ((Bq.empty .binary : Bq Label).apply bag).energy x = polyEnergy x (normPoly .binary raw))
+    ∧ ((∃ c ∈ st.constraints, x c.2 ≠ x c.1.1 * x c.1.2) →
+        polyEnergy x st.reduced + strength ≤ ((Bq.empty .binary : Bq Label).apply bag).energy x) := by
+  have hdom : Dom (Bq.empty .binary : Bq Label).vt x := by
+    intro v
+    have := hx v
+    simp only [List.mem_cons, List.not_mem_nil, or_false] at this
+    rcases this with h0 | h1
+    · rw [h0]; grind
+    · rw [h1]; grind
+  have hE : ((Bq.empty .binary : Bq Label).apply bag).energy x = evalBag x bag := by
+    rw [apply_energy _ x hdom]
+    simp only [Bq.empty, Bq.energy, Bq.linSum, Bq.quadSum]; grind
+  have hp := make_quadratic_penalty_scaled [] strength hs raw choices bag st auxs h x hx
+  refine ⟨by rw [hE]; grind, ?_, ?_⟩
+  · intro hc
+    rw [hE]
+    exact make_quadratic_exact [] strength raw choices bag st auxs h hch x hx hc
+  · intro hex
+    rw [hE]
+    have := hp.2.2 hex
+    grind
+
+/-- **`HigherOrderComposite.sample_poly`, BINARY polynomial, the whole returned sample set end to end**
+    (`Red.samplePolyRecord`; `penalty_strength ≥ 0`, every option, any child): whenever a sample set is returned, every one
+    of its records stems from a record of the child's response to `make_quadratic(poly, penalty_strength, BINARY)`; with
+    `x` the child's row (0/1 values), the reported energy is the polynomial's energy of `x`; the quadratic model's energy
+    of `x` is never below the reduced polynomial's; it EQUALS the reported energy when `penalty_satisfaction = 1`
+    (always, with `discard_unsatisfied`), and lies at least `penalty_strength` above the reduced polynomial when
+    `penalty_satisfaction = 0` -/
+theorem sample_poly_record_end_to_end_binary (child : Bq Label → Option (List (Label × Rat)) → SampleSetM)
+    (raw : List (List Label × Rat)) (choices : List Pair) (hch : ∀ c ∈ choices, c.1 ≠ c.2) (order : List Label)
+    (strength : Rat) (hs : 0 ≤ strength) (keep discard : Bool) (init : Option (List (Label × Rat))) (out : OutSet)
+    (h : samplePolyRecord child .binary raw choices order strength keep discard init = some (.ok out)) :
+    ∃ bag st auxs init', makeQuadratic [] .binary strength raw choices = some (bag, st, auxs)
+      ∧ ∀ ro ∈ out.rows, ∃ r ∈ (child ((Bq.empty .binary : Bq Label).apply bag) init').rows,
+          ro.vectors = r.vectors
+          ∧ ro.energy = polyEnergy (rowFn (child ((Bq.empty .binary : Bq Label).apply bag) init').vars r.sample) (normPoly .binary raw)
+          ∧ ((∀ a ∈ r.sample, a ∈ [(0 : Rat), 1]) →
+              polyEnergy (rowFn (child ((Bq.empty .binary : Bq Label).apply bag) init').vars r.sample) st.reduced
+                  ≤ ((Bq.empty .binary : Bq Label).apply bag).energy (rowFn (child ((Bq.empty .binary : Bq Label).apply bag) init').vars r.sample)
+              ∧ (ro.sat = 1 → ((Bq.empty .binary : Bq Label).apply bag).energy
+                    (rowFn (child ((Bq.empty .binary : Bq Label).apply bag) init').vars r.sample) = ro.energy)
+              ∧ (ro.sat = 0 → polyEnergy (rowFn (child ((Bq.empty .binary : Bq Label).apply bag) init').vars r.sample) st.reduced + strength
+                    ≤ ((Bq.empty .binary : Bq Label).apply bag).energy (rowFn (child ((Bq.empty .binary : Bq Label).apply bag) init').vars r.sample))) := by
+  obtain ⟨bag, st, auxs, init', hmq, _, hres⟩ := sample_poly_record_spec child .binary raw choices order strength keep discard init _ h
+  refine ⟨bag, st, auxs, init', hmq, ?_⟩
+  generalize child ((Bq.empty .binary : Bq Label).apply bag) init' = resp at hres ⊢
+  obtain ⟨hrows, -⟩ := polymorph_response_rows (normPoly .binary raw) order st.constraints (some strength) keep discard resp out hres.symm
+  intro ro hro
+  obtain ⟨r, hr, hvec, _, hen, _, hsat, hdisc⟩ := hrows ro hro
+  refine ⟨r, hr, hvec, hen _ (fun _ _ => rfl), fun hvals => ?_⟩
+  have hx : ∀ l, rowFn resp.vars r.sample l ∈ [(0 : Rat), 1] := by
+    intro l
+    unfold rowFn
+    cases indexOf? l resp.vars with
+    | none => simp
+    | some i =>
+      simp only [List.getD_eq_getElem?_getD]
+      cases hi : r.sample[i]? with
+      | none => simp
+      | some a => simpa using hvals a (List.mem_of_getElem? hi)
+  obtain ⟨h1, h2, h3⟩ := make_quadratic_model_energy_binary strength hs raw choices hch bag st auxs hmq _ hx
+  refine ⟨h1, ?_, ?_⟩
+  · intro hs1
+    rw [hen _ (fun _ _ => rfl)]
+    apply h2
+    rcases hsat.1 hs1 with hd | ha
+    · intro c hc; exact (hdisc hd c hc).symm
+    · intro c hc; exact (ha c hc).symm
+  · intro hs0
+    apply h3
+    apply Classical.byContradiction
+    intro hne
+    have hall : ∀ c ∈ st.constraints, rowFn resp.vars r.sample c.1.1 * rowFn resp.vars r.sample c.1.2 = rowFn resp.vars r.sample c.2 := by
+      intro c hc
+      apply Classical.byContradiction
+      intro hcc
+      exact hne ⟨c, hc, fun e => hcc e.symm⟩
+    have := hsat.2 (Or.inr hall)
+    omega
+
+/-! ## round 7: the whole returned sample set, end to end (SPIN) -/
+
+/-- the quadratic model `make_quadratic` builds on a fresh SPIN model, as an energy function (`strength ≥ 0`): at every ±1
+    assignment — whatever the auxiliaries — it is never below the reduced polynomial and `≥ strength` above it where some
+    product variable differs from its product; where all products are consistent it is never below the POLYNOMIAL and
+    equals it after re-setting only the spin auxiliaries -/
+theorem make_quadratic_model_energy_spin (strength : Rat) (hs : 0 ≤ strength) (raw : List (List Label × Rat)) (choices : List Pair)
+    (hch : ∀ c ∈ choices, c.1 ≠ c.2) (bag : List (PTerm Label)) (st : BK) (auxs : List Label)
+    (h : makeQuadratic [] .spin strength raw choices = some (bag, st, auxs)) (x : Label → Rat) (hx : Spin01 x) :
+    polyEnergy x st.reduced ≤ ((Bq.empty .spin : Bq Label).apply bag).energy x
+    ∧ ((∀ c ∈ st.constraints, x c.2 = x c.1.1 * x c.1.2) →
+        polyEnergy x (normPoly .spin raw) ≤ ((Bq.empty .spin : Bq Label).apply bag).energy x
+        ∧ ∃ x', Spin01 x' ∧ (∀ l, l ∉ auxs → x' l = x l)
+            ∧ ((Bq.empty .spin : Bq Label).apply bag).energy x' = polyEnergy x (normPoly .spin raw))
+    ∧ ((∃ c ∈ st.constraints, x c.2 ≠ x c.1.1 * x c.1.2) →
+        polyEnergy x st.reduced + strength ≤ ((Bq.empty .spin : Bq Label).apply bag).energy x) := by
+  have hdomOf : ∀ y : Label → Rat, Spin01 y → Dom (Bq.empty .spin : Bq Label).vt y := by
+    intro y hy v
+    have := hy v
+    simp only [List.mem_cons, List.not_mem_nil, or_false] at this
+    rcases this with h0 | h1
+    · rw [h0]; grind
+    · rw [h1]; grind
+  have hEof : ∀ y : Label → Rat, Spin01 y → ((Bq.empty .spin : Bq Label).apply bag).energy y = evalBag y bag := by
+    intro y hy
+    rw [apply_energy _ y (hdomOf y hy)]
+    simp only [Bq.empty, Bq.energy, Bq.linSum, Bq.quadSum]; grind
+  have hp := make_quadratic_penalty_scaled_spin [] strength hs raw choices hch bag st auxs h x hx
+  refine ⟨by rw [hEof x hx]; grind, ?_, ?_⟩
+  · intro hc
+    have hred := make_quadratic_reduced_consistent [] .spin strength raw choices bag st auxs h hch x hc
+    refine ⟨by rw [hEof x hx, ← hred]; grind, ?_⟩
+    obtain ⟨x', hx', hoff, hE', _⟩ := make_quadratic_exact_spin [] strength raw choices bag st auxs h hch x hx hc
+    exact ⟨x', hx', hoff, by rw [hEof x' hx', hE']⟩
+  · intro hex
+    rw [hEof x hx]
+    have := hp.2.1 hex
+    grind
+
+/-- **`HigherOrderComposite.sample_poly`, SPIN polynomial, the whole returned sample set end to end** (`penalty_strength ≥ 0`,
+    every option, any child whose records have one value per variable): every returned record stems from a record of the
+    child's response to `make_quadratic(poly, penalty_strength, SPIN)`; with `x` the child's row (±1 values; `1` for labels
+    the response does not have), the reported energy is the polynomial's energy of `x`; the quadratic model's energy of `x`
+    (auxiliaries as the child set them) is never below the reduced polynomial's; when `penalty_satisfaction = 1` the
+    reported energy is ≤ the energy the child saw and equals the model's energy after re-setting only the spin
+    auxiliaries; when `penalty_satisfaction = 0` the child's energy is at least `penalty_strength` above the reduced
+    polynomial -/
+theorem sample_poly_record_end_to_end_spin (child : Bq Label → Option (List (Label × Rat)) → SampleSetM)
+    (hlen : ∀ b i, ∀ r ∈ (child b i).rows, r.sample.length = (child b i).vars.length)
+    (raw : List (List Label × Rat)) (choices : List Pair) (hch : ∀ c ∈ choices, c.1 ≠ c.2)
+    (order : List Label) (horder : ∀ v ∈ order, v ∈ polyVars (normPoly .spin raw))
+    (strength : Rat) (hs : 0 ≤ strength) (keep discard : Bool) (init : Option (List (Label × Rat))) (out : OutSet)
+    (h : samplePolyRecord child .spin raw choices order strength keep discard init = some (.ok out)) :
+    ∃ bag st auxs init', makeQuadratic [] .spin strength raw choices = some (bag, st, auxs)
+      ∧ ∀ ro ∈ out.rows, ∃ r ∈ (child ((Bq.empty .spin : Bq Label).apply bag) init').rows,
+          ro.vectors = r.vectors
+          ∧ ro.energy = polyEnergy (rowFn1 (child ((Bq.empty .spin : Bq Label).apply bag) init').vars r.sample) (normPoly .spin raw)
+          ∧ ((∀ a ∈ r.sample, a ∈ [(-1 : Rat), 1]) →
+              polyEnergy (rowFn1 (child ((Bq.empty .spin : Bq Label).apply bag) init').vars r.sample) st.reduced
+                  ≤ ((Bq.empty .spin : Bq Label).apply bag).energy (rowFn1 (child ((Bq.empty .spin : Bq Label).apply bag) init').vars r.sample)
+              ∧ (ro.sat = 1 →
+                    ro.energy ≤ ((Bq.empty .spin : Bq Label).apply bag).energy (rowFn1 (child ((Bq.empty .spin : Bq Label).apply bag) init').vars r.sample)
+                    ∧ ∃ x', Spin01 x' ∧ (∀ l, l ∉ auxs → x' l = rowFn1 (child ((Bq.empty .spin : Bq Label).apply bag) init').vars r.sample l)
+                        ∧ ((Bq.empty .spin : Bq Label).apply bag).energy x' = ro.energy)
+              ∧ (ro.sat = 0 → polyEnergy (rowFn1 (child ((Bq.empty .spin : Bq Label).apply bag) init').vars r.sample) st.reduced + strength
+                    ≤ ((Bq.empty .spin : Bq Label).apply bag).energy (rowFn1 (child ((Bq.empty .spin : Bq Label).apply bag) init').vars r.sample))) := by
+  obtain ⟨bag, st, auxs, init', hmq, _, hres⟩ := sample_poly_record_spec child .spin raw choices order strength keep discard init _ h
+  refine ⟨bag, st, auxs, init', hmq, ?_⟩
+  have hlen' := hlen ((Bq.empty .spin : Bq Label).apply bag) init'
+  generalize child ((Bq.empty .spin : Bq Label).apply bag) init' = resp at hres hlen' ⊢
+  -- the response has every label the code looks up
+  have hnoerr : ¬ ∃ e, polymorphRecord (normPoly .spin raw) order st.constraints (some strength) keep discard resp = .error e := by
+    rintro ⟨e, he⟩; rw [← hres] at he; simp at he
+  rw [polymorph_response_raises_iff (normPoly .spin raw) order horder] at hnoerr
+  have hredIn : ∀ c ∈ st.constraints, c.1.1 ∈ resp.vars ∧ c.1.2 ∈ resp.vars ∧ c.2 ∈ resp.vars := by
+    intro c hc
+    refine ⟨?_, ?_, ?_⟩ <;>
+    · apply Classical.byContradiction
+      intro hn
+      exact hnoerr (Or.inl ⟨c, hc, by simp [hn]⟩)
+  have hpolyIn : ∀ v ∈ polyVars (normPoly .spin raw), v ∈ resp.vars := by
+    intro v hv
+    apply Classical.byContradiction
+    intro hn
+    exact hnoerr (Or.inr (Or.inl ⟨v, hv, hn⟩))
+  obtain ⟨hrows, -⟩ := polymorph_response_rows (normPoly .spin raw) order st.constraints (some strength) keep discard resp out hres.symm
+  intro ro hro
+  obtain ⟨r, hr, hvec, _, hen, _, hsat, hdisc⟩ := hrows ro hro
+  have hagree : ∀ v ∈ resp.vars, rowFn1 resp.vars r.sample v = rowFn resp.vars r.sample v :=
+    fun v hv => rowFn1_eq_rowFn resp.vars r.sample (hlen' r hr) v hv
+  have hen1 : ro.energy = polyEnergy (rowFn1 resp.vars r.sample) (normPoly .spin raw) :=
+    hen _ (fun v hv => hagree v (hpolyIn v hv))
+  -- the product constraints read on the extended row
+  have hcons : ∀ c ∈ st.constraints,
+      (rowFn resp.vars r.sample c.1.1 * rowFn resp.vars r.sample c.1.2 = rowFn resp.vars r.sample c.2
+        ↔ rowFn1 resp.vars r.sample c.2 = rowFn1 resp.vars r.sample c.1.1 * rowFn1 resp.vars r.sample c.1.2) := by
+    intro c hc
+    obtain ⟨h1, h2, h3⟩ := hredIn c hc
+    rw [hagree _ h1, hagree _ h2, hagree _ h3]
+    constructor <;> intro e <;> exact e.symm
+  refine ⟨r, hr, hvec, hen1, fun hvals => ?_⟩
+  have hx : Spin01 (rowFn1 resp.vars r.sample) := fun l => rowFn1_spin resp.vars r.sample hvals l
+  obtain ⟨h1, h2, h3⟩ := make_quadratic_model_energy_spin strength hs raw choices hch bag st auxs hmq _ hx
+  refine ⟨h1, ?_, ?_⟩
+  · intro hs1
+    have hall : ∀ c ∈ st.constraints, rowFn1 resp.vars r.sample c.2 = rowFn1 resp.vars r.sample c.1.1 * rowFn1 resp.vars r.sample c.1.2 := by
+      intro c hc
+      rcases hsat.1 hs1 with hd | ha
+      · exact (hcons c hc).1 (hdisc hd c hc)
+      · exact (hcons c hc).1 (ha c hc)
+    obtain ⟨hle, x', hx', hoff, hE⟩ := h2 hall
+    exact ⟨by rw [hen1]; exact hle, x', hx', hoff, by rw [hE, hen1]⟩
+  · intro hs0
+    apply h3
+    apply Classical.byContradiction
+    intro hne
+    have hall : ∀ c ∈ st.constraints, rowFn resp.vars r.sample c.1.1 * rowFn resp.vars r.sample c.1.2 = rowFn resp.vars r.sample c.2 := by
+      intro c hc
+      apply (hcons c hc).2
+      apply Classical.byContradiction
+      intro hcc
+      exact hne ⟨c, hc, hcc⟩
+    have := hsat.2 (Or.inr hall)
+    omega
+
+/-! ## round 7: non-vacuity of the new hypotheses -/
+
+/-- a child response over `[0, 1, '0*1']` with a consistent and an inconsistent record; `discard_unsatisfied` keeps the
+    first only, without `keep_penalty_variables` the columns `0, 1` remain, the vector (`num_occurrences`) is carried over -/
+example : ((polymorphRecord [([.int 0, .int 1], 3)] [.int 1, .int 0] [((.int 0, .int 1), .str "0*1")] (some 2) false true
+      { vars := [.int 0, .int 1, .str "0*1"], names := ["num_occurrences"],
+        rows := [⟨[1, 1, 1], 7, [5]⟩, ⟨[1, 0, 1], 9, [6]⟩], info := [("k", "v")], vt := .binary }).toOption.map
+      (fun out => (out.vars, out.rows.map (·.sample)))) = some ([.int 1, .int 0], [[1, 1]]) := by decide +kernel
+
+example : ((polymorphRecord [([.int 0, .int 1], 3)] [.int 1, .int 0] [((.int 0, .int 1), .str "0*1")] (some 2) false true
+      { vars := [.int 0, .int 1, .str "0*1"], names := ["num_occurrences"],
+        rows := [⟨[1, 1, 1], 7, [5]⟩, ⟨[1, 0, 1], 9, [6]⟩], info := [("k", "v")], vt := .binary }).toOption.map
+      (fun out => (out.rows.map (·.energy), out.rows.map (·.sat), out.rows.map (·.vectors)))) = some ([3], [1], [[5]]) := by decide +kernel
+
+example : ((polymorphRecord [([.int 0, .int 1], 3)] [.int 1, .int 0] [((.int 0, .int 1), .str "0*1")] (some 2) false true
+      { vars := [.int 0, .int 1, .str "0*1"], names := ["num_occurrences"],
+        rows := [⟨[1, 1, 1], 7, [5]⟩, ⟨[1, 0, 1], 9, [6]⟩], info := [("k", "v")], vt := .binary }).toOption.map
+      (fun out => (out.fields, out.satDtype, out.info.map (·.1))))
+    = some (["sample", "energy", "penalty_satisfaction", "num_occurrences"], .bool, ["k", "reduction", "penalty_strength"]) := by
+  decide +kernel
+
+/-- the error branch: the response lacks the product variable -/
+example : (match polymorphRecord [([.int 0, .int 1], 3)] [.int 1, .int 0] [((.int 0, .int 1), .str "0*1")] none true false
+      { vars := [.int 0, .int 1], names := [], rows := [], info := [], vt := .binary } with
+    | .ok _ => none
+    | .error e => some e) = some .indexValueError := by decide +kernel
+
+/-- `make_quadratic` with `strength = 0` and with a negative strength returns a model (hypotheses of the two theorems) -/
+example : ((makeQuadratic [] .spin 0 witnessRaw [(.int 0, .int 1)]).isSome, (makeQuadratic [] .spin (-1) witnessRaw [(.int 0, .int 1)]).isSome,
+           (makeQuadratic [] .binary (3/4) witnessRaw [(.int 0, .int 1)]).isSome) = (true, true, true) := by decide +kernel
+
+/-- a consistent and an inconsistent 0/1 record over the variables of `make_quadratic(2·x0x1x2 − x0 − x1 − x2, 2, BINARY)` -/
+def witnessRespB : SampleSetM :=
+  { vars := [.int 0, .int 1, .int 2, .str "0*1"], names := ["num_occurrences"],
+    rows := [⟨[1, 1, 1, 1], 0, [1]⟩, ⟨[1, 1, 0, 0], 0, [2]⟩], info := [], vt := .binary }
+
+/-- ±1 records with one value per variable of the SPIN model -/
+def witnessRespS : SampleSetM :=
+  { vars := [.int 0, .int 1, .int 2, .str "0*1", .str "aux0,1"], names := [],
+    rows := [⟨[1, 1, 1, 1, -1], 0, []⟩, ⟨[1, 1, -1, -1, 1], 0, []⟩], info := [], vt := .spin }
+
+/-- the hypothesis of `sample_poly_record_end_to_end_binary` is met; reported: the polynomial's energies, flags 1 and 0 -/
+example : ((samplePolyRecord (fun _ _ => witnessRespB) .binary witnessRaw [(.int 0, .int 1)] [.int 0, .int 1, .int 2] 2 false false none).map
+      (fun r => r.toOption.map (fun out => out.rows.map (fun ro => (ro.energy, ro.sat))))) = some (some [(-1, 1), (-2, 0)]) := by
+  decide +kernel
+
+/-- the same for `sample_poly_record_end_to_end_spin` (`order` = the polynomial's variables; `discard_unsatisfied` drops the second record) -/
+example : ((samplePolyRecord (fun _ _ => witnessRespS) .spin witnessRaw [(.int 0, .int 1)] [.int 0, .int 1, .int 2] 2 true true none).map
+      (fun r => r.toOption.map (fun out => out.rows.map (fun ro => (ro.energy, ro.sat))))) = some (some [(-1, 1)])
+    ∧ polyVars (normPoly .spin witnessRaw) = [.int 0, .int 1, .int 2] := by
+  decide +kernel
+
+/-- the hypotheses of `polymorph_response_columns` are met by `witnessRespB` with `order` = the polynomial's variables:
+    pairwise different labels, one value per variable in every record -/
+example : witnessRespB.vars.Nodup ∧ (witnessRespB.rows.all (fun r => r.sample.length == witnessRespB.vars.length)) = true
+    ∧ polyVars (normPoly .binary witnessRaw) = [.int 0, .int 1, .int 2] := by
+  decide +kernel
 
 end C15
